@@ -469,10 +469,25 @@ def run(check, repo, tier):
             oks = [it[2] for it in r["items"] if it[0] == "ok"]
             check.sample({"command": r["command"], "context": r["ctx"], "abstract_paths": r["paths"], "example": oks[:2]})
     check.floor(not (n1 < 300), f"C04.R1: only {n1} word/end-to-end obligations decided (floor 300)")
+    # the core class used directly (GCodeCore has no state object; its move/rapid/probe are the ones the builder inherits or wraps)
+    core = CommandRun(repo, cls_name="GCodeCore", tier=tier, exclude=("write",), cm_body=("pass",), with_invalid=False, transform="uninterpreted",
+                      max_dev=None, pins=pins)
+    n_core = 0
+    for r in core.run(analyse):
+        for it in r["items"]:
+            if it[0] == "ok":
+                check.ok(it[1], "GCodeCore." + it[2])
+                n_core += 1
+            elif it[0] == "undecided":
+                check.undecided(it[1], "GCodeCore." + it[2])
+            else:
+                check.violation(it[1], "GCodeCore:" + it[2], "[receiver GCodeCore] " + it[3], it[4])
+                n_core += 1
+    check.floor(n_core >= 200, f"C04.R1: only {n_core} obligations decided for receiver GCodeCore (floor 200)")
     check.rule("R6", "translate/scale/rotate/reflect/mirror chain the textbook matrix of their arguments")
     n4 = transformer_rules(check, cr.program)
     n4 += constructor_rules(check, cr.program)
-    check.analysed = dict(cr.stats, transformer_paths=n4)
+    check.analysed = dict(cr.stats, transformer_paths=n4, gcodecore=core.stats)
     check.coverage["exhaustive"] = True
     check.explanation = (
         "The active transform is an uninterpreted map named after the matrix value it multiplies with; emitted words are compared, "
